@@ -62,8 +62,13 @@ class PrattParser(ABC, Generic[ExprT]):
     def parse_infix(self, lhs: ExprT, op: Pair, rhs: ExprT) -> ExprT:
         """Build a node for an infix operator expression."""
 
-    def parse_expr(self, stream: Stream, min_prec: int = 0) -> ExprT:
-        """Parse an expression from a pest `Stream` using Pratt precedence rules."""
+    def parse_expr(self, stream: Stream, min_prec: int | None = None) -> ExprT:
+        """Parse an expression from a pest `Stream` using Pratt precedence rules.
+
+        Postfix and infix operators with a precedence lower than `min_prec` are
+        left in the stream. By default every declared operator is taken, whatever
+        its precedence.
+        """
         token: Pair | None = stream.next()
         if token is None:
             raise SyntaxError("Unexpected end of expression")
@@ -85,7 +90,7 @@ class PrattParser(ABC, Generic[ExprT]):
             # Postfix operator
             if next_token.name in self.POSTFIX_OPS:
                 prec = self.POSTFIX_OPS[next_token.name]
-                if prec < min_prec:
+                if min_prec is not None and prec < min_prec:
                     break
                 stream.next()
                 left = self.parse_postfix(left, next_token)
@@ -94,7 +99,7 @@ class PrattParser(ABC, Generic[ExprT]):
             # Infix operator
             if next_token.name in self.INFIX_OPS:
                 prec, right_assoc = self.INFIX_OPS[next_token.name]
-                if prec < min_prec:
+                if min_prec is not None and prec < min_prec:
                     break
                 stream.next()
                 rhs = self.parse_expr(stream, prec + (0 if right_assoc else 1))
